@@ -11,7 +11,9 @@ import (
 	"errors"
 	"fmt"
 	uuid "github.com/satori/go.uuid"
+	"math"
 	"runtime"
+	"sort"
 	"strings"
 	"sync"
 	"sync/atomic"
@@ -142,11 +144,26 @@ type MonWAL struct {
 	Crashed     bool
 	OnCrash     func() // called once when the crash fires (under no lock)
 	Violations  []string
+	// membership bookkeeping: the stored snapshot's member set and the membership-change entries durable after it
+	baseConf map[uint64]bool
+	confEnts map[uint64]raftpb.ConfChange
 }
 
 func NewMonWAL(w wal.WAL) *MonWAL {
-	m := &MonWAL{WAL: w}
+	m := &MonWAL{WAL: w, baseConf: map[uint64]bool{}, confEnts: map[uint64]raftpb.ConfChange{}}
 	m.D.Terms = map[uint64]uint64{}
+	if sn, err := w.Snapshot(); err == nil {
+		for _, n := range sn.Metadata.ConfState.Nodes {
+			m.baseConf[n] = true
+		}
+	}
+	if fi, err := w.FirstIndex(); err == nil {
+		if li, err := w.LastIndex(); err == nil && li >= fi {
+			if es, err := w.Entries(fi, li+1, math.MaxUint64); err == nil {
+				m.noteConf(es)
+			}
+		}
+	}
 	// initial durable view from the store itself
 	if hs, _, err := w.InitialState(); err == nil {
 		m.D.Term, m.D.Vote, m.D.Commit = hs.Term, hs.Vote, hs.Commit
@@ -163,6 +180,81 @@ func NewMonWAL(w wal.WAL) *MonWAL {
 		}
 	}
 	return m
+}
+
+// noteConf records the membership-change entries among es (entries at or after es[0].Index are replaced).
+func (m *MonWAL) noteConf(es []raftpb.Entry) {
+	if len(es) == 0 {
+		return
+	}
+	for i := range m.confEnts {
+		if i >= es[0].Index {
+			delete(m.confEnts, i)
+		}
+	}
+	for _, e := range es {
+		if e.Type == raftpb.EntryConfChange {
+			var cc raftpb.ConfChange
+			if cc.Unmarshal(e.Data) == nil {
+				m.confEnts[e.Index] = cc
+			}
+		}
+	}
+}
+
+// membersAt folds the membership changes up to index i over the stored snapshot's member set.
+func (m *MonWAL) membersAt(i uint64) []uint64 {
+	set := map[uint64]bool{}
+	for n := range m.baseConf {
+		set[n] = true
+	}
+	var ixs []uint64
+	for ix := range m.confEnts {
+		if ix <= i {
+			ixs = append(ixs, ix)
+		}
+	}
+	sort.Slice(ixs, func(a, b int) bool { return ixs[a] < ixs[b] })
+	for _, ix := range ixs {
+		cc := m.confEnts[ix]
+		switch cc.Type {
+		case raftpb.ConfChangeAddNode:
+			if cc.NodeID != 0 {
+				set[cc.NodeID] = true
+			}
+		case raftpb.ConfChangeRemoveNode:
+			delete(set, cc.NodeID)
+		}
+	}
+	var out []uint64
+	for n := range set {
+		out = append(out, n)
+	}
+	sort.Slice(out, func(a, b int) bool { return out[a] < out[b] })
+	return out
+}
+
+// MembersAt: the group's member set at log index i according to the store (snapshot members + membership changes up to i).
+func (m *MonWAL) MembersAt(i uint64) []uint64 {
+	m.mu.Lock()
+	defer m.mu.Unlock()
+	return m.membersAt(i)
+}
+
+// RemovedInLog reports whether the durable log after the stored snapshot contains, at or below index upto, a removal of
+// node id that no later entry (up to upto) undoes: the member applied that removal from its log.
+func (m *MonWAL) RemovedInLog(id, upto uint64) bool {
+	m.mu.Lock()
+	defer m.mu.Unlock()
+	var last uint64
+	removed := false
+	for ix, cc := range m.confEnts {
+		if ix <= upto && cc.NodeID == id && ix >= last {
+			last = ix
+			removed = cc.Type == raftpb.ConfChangeRemoveNode
+		}
+	}
+	return removed
 }
 
 func (m *MonWAL) DurableView() Durable {
@@ -237,7 +329,13 @@ func (m *MonWAL) Save(hs raftpb.HardState, ents []raftpb.Entry, snap raftpb.Snap
 		m.D.Terms = map[uint64]uint64{}
 		m.D.SnapIndex, m.D.LastIndex = snap.Metadata.Index, snap.Metadata.Index
 		m.D.Terms[snap.Metadata.Index] = snap.Metadata.Term
+		m.baseConf = map[uint64]bool{}
+		for _, n := range snap.Metadata.ConfState.Nodes {
+			m.baseConf[n] = true
+		}
+		m.confEnts = map[uint64]raftpb.ConfChange{}
 	}
+	m.noteConf(ents)
 	if len(ents) > 0 {
 		for i := range m.D.Terms {
 			if i >= ents[0].Index {
@@ -271,11 +369,33 @@ func (m *MonWAL) CreateSnapshot(i uint64, cs *raftpb.ConfState, data []byte) (ra
 		m.crashNow()
 		return raftpb.Snapshot{}, ErrCrashed
 	}
+	// the membership stored with a local snapshot is the membership at its index: the stored snapshot's member set
+	// plus the membership changes in the log up to that index (all of them applied, the snapshot is taken at the applied index)
+	var want []uint64
+	if cs != nil {
+		want = m.membersAt(i)
+		got := append([]uint64(nil), cs.Nodes...)
+		sort.Slice(got, func(a, b int) bool { return got[a] < got[b] })
+		if fmt.Sprint(got) != fmt.Sprint(want) {
+			m.violate("the local snapshot at index %d stores membership %v, the membership at that index is %v", i, got, want)
+		}
+	}
 	s, err := m.WAL.CreateSnapshot(i, cs, data)
 	if err != nil {
 		return s, err
 	}
 	m.D.SnapIndex = i
+	if cs != nil {
+		m.baseConf = map[uint64]bool{}
+		for _, n := range want {
+			m.baseConf[n] = true
+		}
+		for ix := range m.confEnts {
+			if ix <= i {
+				delete(m.confEnts, ix)
+			}
+		}
+	}
 	if m.CrashAt == m.Writes && m.After {
 		// the snapshot is durable; the loop survives a failed trySnapshot (it only logs), so kill it explicitly
 		m.crashNow()
@@ -292,6 +412,7 @@ func (m *MonWAL) DeleteGroup() error {
 	}
 	err := m.WAL.DeleteGroup()
 	m.D = Durable{Terms: map[uint64]uint64{}}
+	m.baseConf, m.confEnts = map[uint64]bool{}, map[uint64]raftpb.ConfChange{}
 	return err
 }
 
